@@ -1,7 +1,16 @@
 """C04 -- zero resubstitution error (supervised part; the KNN part lives in checks/knn.py)."""
 from . import sup
 
-RUN = ("checks.sup", "run_config")
+RUN = ("checks.c04", "run")
+MAX_WITNESSES = 160
+
+
+def run(cfg):
+    if cfg.get("sub") == "knn":
+        from . import knn
+        return knn.run_config(cfg)
+    return sup.run_config(cfg)
+
 
 
 def configs(tier, seed):
@@ -12,4 +21,30 @@ def configs(tier, seed):
             for branch in ("pre", "fn"):
                 cfgs.append(dict(n=n, K=K, part=list(part), branch=branch, distinct=True, zero_diag=True, positive=True, resub=True,
                                  weight=10 ** n, wstride=5 if n <= 3 else (41 if n == 4 else 2001), sub="sup"))
+    # KNN-supervised: final clustering with force_prototype=True from an arbitrary clean k-NN graph state
+    # (densities with ties allowed) leaves every training sample with its own true label
+    ksizes = [(2, 1), (3, 1), (3, 2), (4, 1)] if tier == "quick" else [(2, 1), (3, 1), (3, 2), (4, 1), (4, 2), (4, 3), (5, 1)]
+    for n, k in ksizes:
+        for K in (2, 3):
+            if K > n:
+                continue
+            cfgs.append(dict(kind="cluster", n=n, k=k, model="knn", force=True, K=K, sub="knn",
+                             weight=(n ** n) * 10 ** k * 3, wstride=7 if n <= 3 else 397))
     return cfgs
+
+
+def signature(prop, cfg, viol):
+    from .driver import strip_idx
+    return "%s:%s:%s" % (prop, cfg.get("sub"), strip_idx(viol["name"]))
+
+
+def describe(v, tier):
+    v.bounds = dict(supervised="n<=4 (quick) / n<=5 (thorough), every label pattern, both weight branches, fit + predict(X_train)",
+                    knn_supervised="_clustering(force_prototype=True) from an arbitrary clean k-NN graph state: n<=3 all k, n=4 k=1 (quick) / n=4 k<=3, n=5 k=1 (thorough), 2-3 classes, ties allowed")
+    v.assumptions = ["supervised: all off-diagonal distances pairwise distinct and strictly positive, d(s,s) = 0, symmetric "
+                     "(two different samples at distance 0 with different labels cannot both be classified correctly by any "
+                     "function of the distances; 'tie-free' is read as excluding that)",
+                     "KNN: injected state = post-condition of create_arcs + calculate_pdf (C12)",
+                     "which of the 47 metrics are symmetric / non-negative / zero on the diagonal is decided by C08"]
+    v.outside = ["n > 5"]
+    v.stubs = ["numpy -> symx.symnp", "logging -> null logger"]
